@@ -46,15 +46,16 @@ pub struct Placement {
 fn placements() -> Vec<Placement> {
     let mut out = Vec::new();
     let build = |name: &str, g: Geom, in_sub: bool, chain: &[u32], pad: usize| -> Placement {
+        // on volumes with more than 65536 clusters the targets live above cluster 65535 (32-bit cluster numbers)
+        let (file_cluster, dir_cluster) = if g.clusters > 66_000 { (66_050u32, 66_051u32) } else { (50u32, 51u32) };
         let mut mk = Mk::new(g);
         let root = mk.root();
-        let (file_cluster, dir_cluster) = (50u32, 51u32);
         // targets of the live-file / live-directory symbols (entries for them are written per case)
         mk.set_chain(&[file_cluster]);
         mk.fill_file(&[file_cluster], 100, 77);
         // a real directory with one entry, reachable only through the per-case entries
         let holder = mk.mkdir(root, "HOLDER", &[dir_cluster]);
-        mk.file(holder, "INSIDE.TXT", 0x20, &[52], 10, 78);
+        mk.file(holder, "INSIDE.TXT", 0x20, &[dir_cluster + 1], 10, 78);
         let (dir, loc, path): (mkfs::Dir, DirLoc, Vec<&'static str>) = if in_sub {
             let d = mk.mkdir(root, "SUB", chain);
             (d, DirLoc::Chain(chain[0]), vec!["SUB"])
@@ -93,6 +94,10 @@ fn placements() -> Vec<Placement> {
         let pad = if re == 16 { 9 } else if re == 32 { 12 } else { 13 };
         out.push(build(&format!("root16-{}", re), g, false, &[], pad));
     }
+    // (e) FAT32 with start clusters above 65535
+    let mut g = scen::g_v32a();
+    g.clusters = 70_000;
+    out.push(build("subdir-start/fat32-high-clusters", g, true, &[66_000], 0));
     // (d) FAT32 roots starting at cluster 2 and 5
     for rc in [2u32, 5] {
         let mut g = scen::g_v32a();
@@ -461,7 +466,7 @@ pub fn c06_def() -> HistProp {
                     root_free_slots: None,
                     sub_free_slots: sub_free,
                     fsinfo: FsInfo::Correct,
-                    depth: if quick { 3 } else { 4 },
+                    depth: if quick { 4 } else { 5 },
                     moving_clock: true,
                     alphabet: Alpha::Mutate,
                     victim: false,
@@ -472,7 +477,7 @@ pub fn c06_def() -> HistProp {
             v
         },
         oracles: || vec![Box::new(ListingProbe)],
-        budget_s: |t| if t == "quick" { 30 } else { 2000 },
+        budget_s: |t| if t == "quick" { 30 } else { 900 },
         max_states: 1_000_000,
         assumptions: &["the start cluster is compared behaviourally (cluster 0 <=> ClusterId::EMPTY / root marker, otherwise reading through the crate yields what the independent reader finds at the on-disk cluster)"],
     }
@@ -597,7 +602,7 @@ pub fn c07_def() -> HistProp {
             let quick = t == "quick";
             let mut v: Vec<(String, ScenMaker)> = Vec::new();
             for k in [VolKind::V16a, VolKind::V32a] {
-                let depth = if quick { 2 } else { 3 };
+                let depth = if quick { 3 } else { 4 };
                 let name = format!("matrix/{}-d{}", k.name(), depth);
                 let n2 = name.clone();
                 v.push((
@@ -632,7 +637,7 @@ pub fn c07_def() -> HistProp {
             v
         },
         oracles: || vec![Box::new(Matrix)],
-        budget_s: |t| if t == "quick" { 40 } else { 2000 },
+        budget_s: |t| if t == "quick" { 40 } else { 900 },
         max_states: 500_000,
         assumptions: &["when two documented refusals apply at once either error is accepted", "deleting a file with the read-only attribute is outside the property (either outcome accepted)"],
     }
